@@ -1,6 +1,6 @@
 (* Props/C20.v — validation decides the code conditions exactly. *)
 From Coq Require Import Arith List Bool Lia.
-From QV Require Import Core.Bits Core.Pauli Core.Symp Core.Code Core.CodeP Core.CodeNd.
+From QV Require Import Core.Bits Core.Pauli Core.Symp Core.Code Core.CodeP Core.CodeNd App.ConvHeap.
 Import ListNotations.
 
 (* binary-matrix level: any matrices, any number of logical rows *)
@@ -61,6 +61,16 @@ Proof. exact validate_nd_eq. Qed.
 Theorem c20_validate_fast : forall c, validate_fast c = validate c.
 Proof. exact validate_fast_eq. Qed.
 
+(* codes defined by Pauli strings: the arrays pauli_to_bsf hands out are the caller's (heap of mutable cells, every
+   conversion allocates).  After ANY caller history - conversions of the same strings, arbitrary in-place overwrites of
+   any cell - the code read from its strings is code_of of the strings, so c20_validate_iff decides it; a memoised
+   conversion returning the shared cell does not have this property (App/ConvHeap.memo_valid_rejected,
+   memo_invalid_accepted) *)
+Theorem c20_strings_any_caller_history : forall steps ss xs zs,
+  build_fresh (run_fresh [] steps) ss xs zs = code_of ss xs zs /\
+  logicals (build_fresh (run_fresh [] steps) ss xs zs) = map to_bsf xs ++ map to_bsf zs.
+Proof. exact strings_any_caller_history. Qed.
+
 (* non-vacuity: the five-qubit code validates; swapping a logical pair does not *)
 Definition five := code_of [[pX;pZ;pZ;pX;pI]; [pI;pX;pZ;pZ;pX]; [pX;pI;pX;pZ;pZ]; [pZ;pX;pI;pX;pZ]] [[pX;pX;pX;pX;pX]] [[pZ;pZ;pZ;pZ;pZ]].
 Example c20_ex_five : validate five = VOk /\
@@ -72,3 +82,4 @@ Print Assumptions c20_validate_iff_matrix. Print Assumptions c20_validate_iff_ca
 Print Assumptions c20_validate_iff. Print Assumptions c20_first_failure.
 Print Assumptions c20_logicals_order. Print Assumptions c20_decode_result. Print Assumptions c20_corruption.
 Print Assumptions c20_presentation_1d. Print Assumptions c20_validate_fast.
+Print Assumptions c20_strings_any_caller_history.
